@@ -1,7 +1,9 @@
-(* C12 — URL <-> LRU conversion and serialization.  Statements only.  PARTIAL: the
-   round-trip clauses are decided by the harness (re-parsing the implementation's output) and
-   by model-vs-implementation correspondence; proved here: the serialization shape and the
-   structural pins of the two splitter regexes read from the source. *)
+(* C12 — URL <-> LRU conversion and serialization.  Statements only.  Proved: lru_to_url rebuilds
+   exactly the url (urlunsplit of the parsed components) whose stems it is given, for every parsed url without
+   userinfo and with an ordinary host, modulo the computed behaviour of the port splitter regex; the serialization
+   shape; the structural pins of the two splitter regexes read from the source.  PARTIAL: userinfo, special hosts,
+   suffix-aware stems and the serialized (string) form are decided by the harness (re-parsing the implementation's
+   output) and by model-vs-implementation correspondence. *)
 From Coq Require Import String.
 From Coq Require Import List NArith.
 Import ListNotations.
@@ -37,6 +39,30 @@ Example C12_round_trips :
     map lit ["s:http"; "t:81"; "h:uk"; "h:co"; "h:x"; "h:www"; "p:a"; "p:"; "q:q"; "f:f"; "u:u"; "w:p"].
 Proof. vm_compute. repeat split. Qed.
 
+(* lru_to_url rebuilds the url its stems came from: for every parsed url without userinfo whose host is not a
+   special host, whatever the suffix trie, provided the port splitter cuts the netloc into a host and an optional
+   port that re-join to the netloc (what PORT_SPLITTER does on a given netloc is a computation; the regex is
+   pinned above and exercised against CPython).  The path is absolute or empty, as urlsplit produces it. *)
+Theorem C12_stems_round_trip : forall (t : snode) (r : SplitResult) (host : str) (oport : option str),
+  rcut [64%N] (netloc r) = None ->
+  re_split PORT_SPLITTER_f PORT_SPLITTER PORT_SPLITTER_g (netloc r) None
+    = Some host :: (match oport with Some p => [Some p] | None => [] end) ->
+  netloc r = host ++ (match oport with Some p => 58%N :: p | None => [] end) ->
+  is_special_host host = false ->
+  (path r = [] \/ exists p, path r = 47%N :: p) ->
+  lru_to_url_stems (lru_stems_from_parsed t r false) = Ok (urlunsplit r).
+Proof. exact stems_round_trip. Qed.
+
+(* its hypotheses hold on an ordinary url with a port: http://www.x.co.uk:8080/a//b/?q=1#f *)
+Example C12_round_trip_example :
+  let r := {| scheme := lit "http"; netloc := lit "www.x.co.uk:8080"; path := lit "/a//b/"; query := lit "q=1"; fragment := lit "f" |} in
+  rcut [64%N] (netloc r) = None /\
+  re_split PORT_SPLITTER_f PORT_SPLITTER PORT_SPLITTER_g (netloc r) None = [Some (lit "www.x.co.uk"); Some (lit "8080")] /\
+  is_special_host (lit "www.x.co.uk") = false /\
+  lru_to_url_stems (lru_stems_from_parsed sempty r false) = Ok (lit "http://www.x.co.uk:8080/a//b/?q=1#f").
+Proof. vm_compute. repeat split. Qed.
+
 Print Assumptions C12_ends_with_bar.
+Print Assumptions C12_stems_round_trip.
 Print Assumptions C12_pin_serialized_splitter.
 Print Assumptions C12_pin_port_splitter.
